@@ -227,34 +227,20 @@ func checkC08(r *core.Run) {
 	if fn := r.Func("G-mint", "node.BeginBlocker"); fn != nil {
 		res := r.Resolver(fn)
 		ck := &guard.Checker{P: r.P, Fn: fn, Res: res}
-		// TotalReward store: dominated by mint success, adds the minted coin
+		// TotalReward store: dominated by mint success, adds the minted coin (the store may sit in a helper that
+		// receives a pointer to the pool: every frame is searched, terms in BeginBlocker's vocabulary)
 		n := 0
-		for _, b := range fn.Blocks {
-			for _, ins := range b.Instrs {
-				st, ok := ins.(*ssa.Store)
-				if !ok {
-					continue
-				}
-				fa, ok := st.Addr.(*ssa.FieldAddr)
-				if !ok || shortTypeName(fa.X.Type())+"."+fieldNameT(fa.X.Type(), fa.Field) != "node/types.Pool.TotalReward" {
-					continue
-				}
-				n++
-				key := core.Key("G-mint", "node.BeginBlocker", "store Pool.TotalReward")
-				okp, w := ck.MustPass(b, []guard.Atom{guard.Eq("node/keeper.Keeper.MintCoins(*)", "nil")})
-				vt := res.Of(st.Val)
-				// value must be TotalReward.Add(<coin minted>): the coin added is the one placed in the minted Coins
-				minted := ""
-				for _, c := range callsIn(r, fn, "sdk.NewCoins") {
-					if call, ok := c.(*ssa.Call); ok {
-						if sl, ok := call.Call.Args[0].(*ssa.Slice); ok {
-							if al, ok := sl.X.(*ssa.Alloc); ok {
-								for _, ref := range *al.Referrers() {
-									if ia, ok := ref.(*ssa.IndexAddr); ok {
-										for _, r2 := range *ia.Referrers() {
-											if s2, ok := r2.(*ssa.Store); ok {
-												minted = res.Of(s2.Val).String()
-											}
+		minted := ""
+		for _, fr := range frames(r, fn) {
+			for _, c := range callsIn(r, fr.Fn, "sdk.NewCoins") {
+				if call, ok := c.(*ssa.Call); ok {
+					if sl, ok := call.Call.Args[0].(*ssa.Slice); ok {
+						if al, ok := sl.X.(*ssa.Alloc); ok {
+							for _, ref := range *al.Referrers() {
+								if ia, ok := ref.(*ssa.IndexAddr); ok {
+									for _, r2 := range *ia.Referrers() {
+										if s2, ok := r2.(*ssa.Store); ok {
+											minted = fr.T(r, s2.Val)
 										}
 									}
 								}
@@ -262,17 +248,36 @@ func checkC08(r *core.Run) {
 						}
 					}
 				}
-				sameCoin := vt.Op == "call" && vt.Name == "sdk.Coin.Add" && len(vt.Args) == 2 && minted != "" && vt.Args[1].String() == minted && strings.HasSuffix(normT(vt.Args[0].String()), ".TotalReward")
-				switch {
-				case !okp:
-					r.Violate("G-mint", key+"|after-successful-mint", r.P.Pos(st.Pos()), "the cumulative reward counter is increased on a path where the mint did not (provably) succeed", w...)
-				default:
-					r.Discharge("G-mint", key+"|after-successful-mint", r.P.Pos(st.Pos()), "counter updated only on the mint err == nil edge")
-				}
-				if sameCoin {
-					r.Discharge("G-mint", key+"|by-the-minted-coin", r.P.Pos(st.Pos()), "TotalReward := TotalReward.Add(coin) with coin the value handed to MintCoins")
-				} else {
-					r.Violate("G-mint", key+"|by-the-minted-coin", r.P.Pos(st.Pos()), fmt.Sprintf("the counter is not increased by exactly the coin that was minted (stored %s, minted %s)", shorten(vt.String()), shorten(minted)))
+			}
+		}
+		for _, fr := range frames(r, fn) {
+			for _, b := range fr.Fn.Blocks {
+				for _, ins := range b.Instrs {
+					st, ok := ins.(*ssa.Store)
+					if !ok {
+						continue
+					}
+					fa, ok := st.Addr.(*ssa.FieldAddr)
+					if !ok || shortTypeName(fa.X.Type())+"."+fieldNameT(fa.X.Type(), fa.Field) != "node/types.Pool.TotalReward" {
+						continue
+					}
+					n++
+					key := core.Key("G-mint", "node.BeginBlocker", "store Pool.TotalReward")
+					okp, w := mustPassDeep(r, fn, effSite{Ins: st, Chain: fr.Chain}, []guard.Atom{guard.Eq("node/keeper.Keeper.MintCoins(*)", "nil")})
+					vt := fr.T(r, st.Val)
+					// value must be TotalReward.Add(<coin minted>): the coin added is the one placed in the minted Coins
+					sameCoin := strings.HasPrefix(vt, "sdk.Coin.Add(") && minted != "" && strings.HasSuffix(vt, ","+minted+")") && strings.HasSuffix(strings.TrimSuffix(vt, ","+minted+")"), ".TotalReward")
+					switch {
+					case !okp:
+						r.Violate("G-mint", key+"|after-successful-mint", r.P.Pos(st.Pos()), "the cumulative reward counter is increased on a path where the mint did not (provably) succeed", w...)
+					default:
+						r.Discharge("G-mint", key+"|after-successful-mint", r.P.Pos(st.Pos()), "counter updated only on the mint err == nil edge")
+					}
+					if sameCoin {
+						r.Discharge("G-mint", key+"|by-the-minted-coin", r.P.Pos(st.Pos()), "TotalReward := TotalReward.Add(coin) with coin the value handed to MintCoins")
+					} else {
+						r.Violate("G-mint", key+"|by-the-minted-coin", r.P.Pos(st.Pos()), fmt.Sprintf("the counter is not increased by exactly the coin that was minted (stored %s, minted %s)", shorten(vt), shorten(minted)))
+					}
 				}
 			}
 		}
